@@ -26,7 +26,7 @@ ASSUMPTIONS = [
     "asyncio's FIFO order of ready callbacks is kept (it is an asyncio guarantee)",
     "token containment identifies the producers a job consumed (tokens are unique per job by construction)",
 ]
-PROBES = ["bodies_overlapped", "job_seen_running", "futured_dedup", "nested_wf", "split_jobs"]
+PROBES = ["bodies_overlapped", "job_seen_running", "futured_dedup", "nested_wf", "split_jobs", "dup_nested_wf", "pydrafilelock_waited"]
 NWF = {"quick": 60, "thorough": 900}
 NSCHED = {"quick": 5, "thorough": 12}
 
@@ -53,7 +53,9 @@ def check_order(res, sig, order, produces, label):
 def run_case(case, ch, workdir):
     res = blank_result()
     seed = int(os.environ.get("VERIF_SEED", "0") or 0)
-    spec, _ = wc.spec_for(seed, case["w"])
+    spec, sch = wc.spec_for(seed, case["w"])
+    if case["w"] % 6 == 5:
+        spec = wfgen.add_dup_nested(sch, spec)
     desc = wfgen.describe(spec)
     rstat, rval, revents = wc.reference_run(spec, os.path.join(workdir, "refcache"))
     renters, rorder, rprod = wc.exec_summary(revents)
@@ -87,6 +89,9 @@ def run_case(case, ch, workdir):
             sim.probe("split_jobs")
         if len({nd["label"] for nd in spec["nodes"]}) < len(spec["nodes"]):
             sim.probe("futured_dedup")
+        wfl = [nd["label"] for nd in spec["nodes"] if nd["kind"] == "wf"]
+        if len(set(wfl)) < len(wfl):
+            sim.probe("dup_nested_wf")
         res["nontrivial"] = len(renters) >= 3 and (mx > 1 or env.pool.nworkers >= 2)
         if status == "hang":
             violation(res, "no-termination", sig, f"simulated submission did not terminate: {val}")
